@@ -1,15 +1,138 @@
-/- T2N.Model.Nl — STUB (to be replaced by the model of src/lang/nl/mod.rs) -/
+/-
+  T2N.Model.Nl — model of `src/lang/nl/mod.rs` (struct `Dutch`).
+
+  Dutch numbers are compounds ("drieënvijftigduizendtweehonderdvier"): `apply` first asks the
+  `WordSplitter` whether the word splits into at least two pieces; if so the pieces are interpreted
+  as a group on a fresh builder and the result is `put` into `b`.  Otherwise the word is looked up in
+  the `match`.  No word occurs in two arms, so an arm whose `if` guard fails falls through to the
+  final `_ => Err(Error::NaN)`.  There is no lemmatizer.
+-/
 import T2N.Model.Lang
 
 namespace T2N.Nl
 
+/-- The patterns of the `WordSplitter` (`impl Default for Dutch`), in the same order. -/
+def patterns : List Word := [
+  w!"honderd", w!"honderdste",
+  w!"duizend", w!"duizendste",
+  w!"miljoen", w!"miljoenste",
+  w!"miljard", w!"miljardste",
+  w!"biljoen", w!"biljoenste",
+  w!"een",
+  w!"drie",
+  w!"zeven", w!"zevende",
+  w!"negen", w!"negende",
+  w!"tien", w!"tiende",
+  w!"dertien", w!"dertiende",
+  w!"veertien", w!"veertiende",
+  w!"vijftien", w!"vijftiende",
+  w!"zestien", w!"zestiende",
+  w!"zeventien", w!"zeventiende",
+  w!"achttien", w!"achttiende",
+  w!"negentien", w!"negentiende",
+  w!"zeventig", w!"zeventigste",
+  w!"negentig", w!"negentigste",
+  w!"en", w!"ën"
+]
+
+/-- units: `if b.is_free(2) => { to_block = Excludable::TENS; b.put(d) }` -/
+def unit (d : Nat) : Act := .when (.free 2) (.block 1 (.put [d]))
+
+/-- tens: `if !blocked.contains(Excludable::TENS) => b.put_digit_at(d, 1)` -/
+def tens (d : Nat) : Act := .when (.neg (.flag 1)) (.putAt d 1)
+
+/-- `"honderd" | "honderdste"` (no guard on the arm) -/
+def hundred : Act :=
+  .ite (.and (.peekLen 2 1) (.peekEq 2 [1])) (.fail .overlap) (.shift 2)
+
+/-- `"duizend" | "duizendste" if b.is_range_free(3, 5)` -/
+def thousand : Act :=
+  .when (.rangeFree 3 5) (.ite (.peekEq 2 [1]) (.fail .overlap) (.shift 3))
+
+/-- word ↦ instruction (the `match num_func { … }` of `apply`) -/
+def vocab : List (Word × Act) := [
+  (w!"nul", .put [0]),
+  (w!"één", unit 1), (w!"een", unit 1), (w!"eerste", unit 1),
+  (w!"twee", unit 2), (w!"tweede", unit 2),
+  (w!"drie", unit 3), (w!"derde", unit 3),
+  (w!"vier", unit 4), (w!"vierde", unit 4),
+  (w!"vijf", unit 5), (w!"vijfde", unit 5),
+  (w!"zes", unit 6), (w!"zesde", unit 6),
+  (w!"zeven", unit 7), (w!"zevende", unit 7),
+  (w!"acht", unit 8), (w!"achtste", unit 8),
+  (w!"negen", unit 9), (w!"negende", unit 9),
+  (w!"tien", .put [1,0]), (w!"tiende", .put [1,0]),
+  (w!"elf", .put [1,1]), (w!"elfde", .put [1,1]),
+  (w!"twaalf", .put [1,2]), (w!"twaalfde", .put [1,2]),
+  (w!"dertien", .put [1,3]), (w!"dertiende", .put [1,3]),
+  (w!"veertien", .put [1,4]), (w!"veertiende", .put [1,4]),
+  (w!"vijftien", .put [1,5]), (w!"vijftiende", .put [1,5]),
+  (w!"zestien", .put [1,6]), (w!"zestiende", .put [1,6]),
+  (w!"zeventien", .put [1,7]), (w!"zeventiende", .put [1,7]),
+  (w!"achttien", .put [1,8]), (w!"achttiende", .put [1,8]),
+  (w!"negentien", .put [1,9]), (w!"negentiende", .put [1,9]),
+  (w!"twintig", tens 2), (w!"twintigste", tens 2),
+  (w!"dertig", tens 3), (w!"dertigste", tens 3),
+  (w!"veertig", tens 4), (w!"veertigste", tens 4),
+  (w!"vijftig", tens 5), (w!"vijftigste", tens 5),
+  (w!"zestig", tens 6), (w!"zestigste", tens 6),
+  (w!"zeventig", tens 7), (w!"zeventigste", tens 7),
+  (w!"tachtig", tens 8), (w!"tachtigste", tens 8),
+  (w!"negentig", tens 9), (w!"negentigste", tens 9),
+  (w!"honderd", hundred), (w!"honderdste", hundred),
+  (w!"duizend", thousand), (w!"duizendste", thousand),
+  (w!"miljoen", .when (.rangeFree 6 8) (.shift 6)), (w!"miljoenste", .when (.rangeFree 6 8) (.shift 6)),
+  (w!"miljard", .shift 9), (w!"miljardste", .shift 9),
+  (w!"biljoen", .shift 12), (w!"biljoenste", .shift 12),
+  (w!"en", .fail .incomplete), (w!"ën", .fail .incomplete)
+]
+
+/-- `get_morph_marker` -/
+def morph (w : Word) : Marker :=
+  if endsWith w w!"ste" || endsWith w w!"de" then .ordinal .nlE else .none
+
+/-- `apply`. The fuel bounds the compound recursion `apply → exec_group → apply`: a piece produced by
+the splitter is either a pattern (whose leftmost-longest match is the whole piece) or a gap (which
+contains no match), hence never splittable again, so depth 2 is never exceeded (`applyFuel 0` is
+unreachable).
+
+Note the asymmetry in the post-processing of the plain branch: the builder is frozen when the word
+ends with "te" or "de", whereas `get_morph_marker` tests "ste" / "de"; for a word ending in "te" but
+not "ste" the marker would be reset to `None` while the builder is frozen (no such word is in the
+vocabulary, so this cannot happen on the `Ok` path). The compound branch touches neither `flags`
+nor, on failure, anything else. -/
+def applyFuel : Nat → Word → DS → Res × DS
+  | 0, _, b => (some .nan, b)
+  | fuel + 1, w, b =>
+    if isSplittable patterns w then
+      match execGroup (applyFuel fuel) (splitWord patterns w) with
+      | .ok ds => mergeGroup b ds false ds.marker
+      | .error e => (some e, b)
+    else
+      let act := (vocab.lookup w).getD (.fail .nan)
+      let (r, b', toBlock) := act.exec b
+      if r.isNone then
+        let b' := { b' with flags := toBlock }
+        if endsWith w w!"te" || endsWith w w!"de" then
+          (r, { b' with marker := morph w, frozen := true })
+        else (r, b')
+      else (r, { b' with flags := 0 })
+
+def apply : Word → DS → Res × DS := applyFuel 2
+
+/-- `apply_decimal` simply delegates to `apply`. -/
+def applyDecimal : Word → DS → Res × DS := apply
+
+def insignificant : List Word := [
+  w!"ja", w!"dus", w!"plus", w!"uh", w!"dan", w!"min", w!"dat", w!"is"]
+
 def lang : Lang where
   code := "nl"
-  apply := fun _ b => (some .nan, b)
-  applyDecimal := fun _ b => (some .nan, b)
-  morph := fun _ => .none
-  isDecSep := fun _ => false
+  apply := apply
+  applyDecimal := applyDecimal
+  morph := morph
+  isDecSep := fun w => w == w!"komma"
   decMark := ','
-  isLinking := fun _ => false
+  isLinking := fun w => insignificant.contains w
 
 end T2N.Nl
